@@ -236,6 +236,18 @@ def chainStep (d : Drv) (line : String) : Drv × String :=
       let n := reopenNode C d.node ts
       ({ d with node := n }, showState n.cfg.registry n.chain)
     | none => bad
+  -- the process stops inside the `Chain::append` of `commit w ts` after `k` of its store writes (1 = block record
+  -- written, height record not yet); the in-memory head is what the next `reopen` discards
+  | ["ncrash", w, ts, k] => match w.toNat?, ts.toNat?, k.toNat? with
+    | some w, some ts, some k =>
+      match commitCrashInAppend C d.node w ts k with
+      | some n => ({ d with node := n }, "ok")
+      | none => (d, "none")
+    | _, _, _ => bad
+  -- the height record of the node's store rewritten behind the chain's back (a lost `save_height`)
+  | ["nsetmeta", h] => match h.toNat? with
+    | some h => ({ d with node := { d.node with chain := { d.node.chain with store := sput d.node.chain.store .chainMeta (.height h) } } }, "ok")
+    | none => bad
   | ["history", k] => match k.toNat? with
     | some k => (d, showHistory (history d.node.chain k))
     | none => bad
@@ -292,6 +304,16 @@ def chainStep (d : Drv) (line : String) : Drv × String :=
         | .error e => (d, "err " ++ showAppendErr e)
       | none => bad
     | _, _, _ => bad
+  -- `append` of the block stops after `k` of its store writes (checks passed): the in-memory head is unchanged
+  | ["ccrash", k, hsel, prev, root, sig, ts, prop, txs] => match k.toNat?, ts.toNat?, prop.toNat?, parseTxs txs with
+    | some k, some ts, some prop, some txs =>
+      match mkRawBlock d hsel prev root sig ts prop txs with
+      | some b =>
+        match append C d.rawReg d.raw b with
+        | .ok _ => ({ d with raw := { d.raw with store := appendCrashStore C d.raw b k } }, "ok")
+        | .error e => (d, "err " ++ showAppendErr e)
+      | none => bad
+    | _, _, _, _ => bad
   -- a new `Chain` object over the (possibly tampered) store + `initialize()`
   | ["copen", ts] => match ts.toNat? with
     | some ts =>
